@@ -5,6 +5,16 @@ HERE = os.path.dirname(os.path.abspath(__file__))
 BASELINE = "cd /repo && /venv/bin/python -m pytest -ra -q -p no:cacheprovider --timeout=900 --continue-on-collection-errors"
 
 CLAIMED = {
+    'C16': dict(
+        design='4.16',
+        text='Kernel only (no schedules): parallel.range.__next__ reads and writes the shared index only while holding its lock, returns the old index and stores old+1, or raises StopIteration '
+             'without writing when old >= stop (so successive calls from any process hand out 0..stop-1 exactly once, given mutual exclusion). BOUNDED configurations (two shared variables with '
+             'distinct locks + one private, all subsets per operand; labelled bounded): every statement the code generator _BlockBuilder emits (exec, assign_to, assert_true, raise_, if_) that mentions '
+             'a shared array is nested in `with lock` blocks of all its shared variables, each lock once, and if_ never tests a shared array outside its lock. Ground frame check: every _pyast expression '
+             'class lists in `variables` every child its generated code prints.',
+        note='All interleavings, visibility of shared memory, worker failure/kill (fork/_wait) and the registration of shared arrays are OUTSIDE: this family is silent on concurrency and faults. '
+             'Assumed: Lock gives mutual exclusion, RawValue is sequentially consistent, each shared array has its own lock.',
+        technique='contract-based verification: symbolic execution of the real methods with lock/event ghost state; syntactic frame check on _pyast'),
     'C18': dict(
         design='4.18',
         text='Kernel, complete histories only: symbolic execution of the real closure cache.function.wrapper under assumed pickle/file contracts decides, for each outcome of pickle.load (valid entry, '
@@ -158,7 +168,7 @@ NOT_APPLICABLE = {
     'C02': 'whole-DAG faithful translation into generated numpy programs: no function-level postcondition carries it; would need a denotational semantics of ~150 node classes and of the generated code (DESIGN 4.2)',
     'C03': 'history/non-interference property of a program that exists only as a generated string; no per-function contract expresses it (DESIGN 4.3)',
 }
-PENDING = ['C16']
+PENDING = []
 
 
 def main():
